@@ -207,6 +207,7 @@ func (e *edrv) synthetic(ops []eop) ([]event.Event, []burnT, []mintT) {
 func (e *edrv) real(ops []eop) ([]event.Event, []burnT, []mintT) {
 	d := e.drv
 	w := d.w
+	d.w.ColdCache() // see world.ColdCache
 	d.beginBlock(d.base)
 	burns, mints := []burnT{}, []mintT{}
 	mintSeq := int64(0)
